@@ -5,7 +5,7 @@ from gen import extract_facts
 generate_facts = extract_facts.generate
 
 ID = "C03"
-LEAN_MODULES = ["Econf.Props.C03", "Econf.Props.Tie", "Econf.Props.LeafKf", "Econf.Props.LeafMerge"]
+LEAN_MODULES = ["Econf.Props.C03", "Econf.Props.Tie", "Econf.Props.LeafKf", "Econf.Props.LeafMerge", "Econf.Props.LeafAddNew"]
 # the look-ups of the merge over the entry arrays: translated from lib/mergefiles.c on every run (gen/c2lean.py)
 LEAF_FNS = ["has_group", "first_entry", "first_definition", "setGroupList", "cpy_file_entry", "merge3"]
 THEOREMS = ["Econf.C03_lookup", "Econf.C03_nothing_else", "Econf.C03_no_duplicates", "Econf.C03_base_order",
@@ -17,7 +17,12 @@ THEOREMS = ["Econf.C03_lookup", "Econf.C03_nothing_else", "Econf.C03_no_duplicat
             "LeafKf.C_fe_append", "LeafKf.fe_append_exec", "LeafKf.EntMem.moved",
             # insert_nogroup, the first of the three loops of the merge, on the generated term and against the model's insertNoGroup
             "LeafKf.C_insert_nogroup", "LeafKf.insert_nogroup_exec", "LeafKf.insert_nogroup_shape", "LeafKf.ng_round", "LeafKf.ng_loop",
-            "LeafKf.selUpTo_model", "LeafKf.ngSel_model", "LeafKf.firstIdx_eq_iff", "LeafKf.firstDefsAux_eq"]
+            "LeafKf.selUpTo_model", "LeafKf.ngSel_model", "LeafKf.firstIdx_eq_iff", "LeafKf.firstDefsAux_eq",
+            # a concrete caller's memory that meets the hypotheses of C_insert_nogroup (the premises are satisfiable)
+            "LeafKf.Example.run", "LeafKf.Example.ctx_ok", "LeafKf.Example.override_ok", "LeafKf.Example.base_ok",
+            # add_new_groups, the last loop of the merge (with the final realloc), on the generated term and against the model's addNewGroups
+            "LeafKf.C_add_new_groups", "LeafKf.add_new_groups_exec", "LeafKf.add_new_groups_shape", "LeafKf.ag_round", "LeafKf.ag_loop",
+            "LeafKf.selBy_model", "LeafKf.agSel_model", "LeafKf.EntMem.reblock"]
 RULE = ("pairs of entry lists over {group-less,A,B}x{x,y}: exhaustive up to the tier's length bound, built by parsing and by the setters "
         "on all constructor kinds, plus random larger pairs, pairs with valueless definitions, and pairs in which an input is the result of "
         "econf_readDirs or a member of a history; non-trivial = merge succeeded and both sides non-empty or one side an "
